@@ -31,6 +31,7 @@ import (
 type spReq struct {
 	Mode     string   `json:"mode"`
 	KnownIDs []string `json:"known_ids"`
+	Property string   `json:"property"` // run only the scenarios that test this property ("" = all)
 }
 type spOut struct {
 	Verdict string      `json:"verdict"`
@@ -49,6 +50,7 @@ type spScenario struct {
 	Delegator string `json:"delegator"`    // "origin" or "caller"
 	Value     int64  `json:"tx_value"`     // value sent with the transaction to the calling contract
 	Amount    int64  `json:"amount"`
+	Revert    bool   `json:"frame_reverts"` // the call frame that made the precompile call reverts afterwards (C05)
 }
 
 func (s *PrecompileTestSuite) spRun(sc spScenario) string {
@@ -91,6 +93,7 @@ func (s *PrecompileTestSuite) spRun(sc spScenario) string {
 	}
 	supply0 := s.app.BankKeeper.GetSupply(s.ctx, utils.BaseDenom).Amount.BigInt()
 	o0, c0 := bal(origin), bal(caller)
+	shares0 := s.spShares(delegator)
 	// top-level frame, as evm.Call does it
 	if s.stateDB.GetBalance(origin).Cmp(big.NewInt(sc.Value)) < 0 {
 		return "scenario: insufficient balance"
@@ -99,11 +102,25 @@ func (s *PrecompileTestSuite) spRun(sc spScenario) string {
 		s.stateDB.SubBalance(origin, big.NewInt(sc.Value))
 		s.stateDB.AddBalance(caller, big.NewInt(sc.Value))
 	}
+	snap := s.stateDB.Snapshot() // evm.Call snapshots on entering the frame that makes the precompile call
 	if _, err := s.precompile.Run(evm, contract, false); err != nil {
 		return "scenario: precompile call failed: " + err.Error()
 	}
+	if sc.Revert {
+		s.stateDB.RevertToSnapshot(snap) // the frame fails after the precompile call returned (caught by its parent)
+	}
 	if err := s.stateDB.Commit(); err != nil {
 		return "scenario: commit failed: " + err.Error()
+	}
+	if sc.Revert {
+		// C05: a reverted frame leaves no trace, precompiles included
+		if got := s.spShares(delegator); got != shares0 {
+			return fmt.Sprintf("the delegation made inside the reverted frame persists: shares %s -> %s", shares0, got)
+		}
+		if bal(delegator).Cmp(map[bool]*big.Int{true: o0, false: c0}[delegator == origin]) != 0 {
+			return "the delegator's bank balance changed although the frame was reverted"
+		}
+		return ""
 	}
 	supply1 := s.app.BankKeeper.GetSupply(s.ctx, utils.BaseDenom).Amount.BigInt()
 	if supply0.Cmp(supply1) != 0 {
@@ -131,6 +148,14 @@ func (s *PrecompileTestSuite) spRun(sc spScenario) string {
 	return ""
 }
 
+func (s *PrecompileTestSuite) spShares(del common.Address) string {
+	d, found := s.app.StakingKeeper.GetDelegation(s.ctx, del.Bytes(), s.validators[0].GetOperator())
+	if !found {
+		return "none"
+	}
+	return d.Shares.String()
+}
+
 func (s *PrecompileTestSuite) TestVerifReplayStakingPrecompile() {
 	raw, err := os.ReadFile(os.Getenv("VERIF_REPLAY_IN"))
 	if err != nil {
@@ -143,16 +168,21 @@ func (s *PrecompileTestSuite) TestVerifReplayStakingPrecompile() {
 		known[k] = true
 	}
 	scenarios := []spScenario{
-		{"", "signer delegates directly", false, "origin", 0, 1000},
-		{"", "signer delegates through a contract, no value sent", true, "origin", 0, 1000},
-		{"F5-Delegate", "signer sends 1 to a contract that delegates the signer's coins under a grant", true, "origin", 1, 1000},
-		{"F5-Delegate", "as above, larger amounts", true, "origin", 12345, 777777},
-		{"", "a contract delegates its own coins, no value sent", true, "caller", 0, 1000},
-		{"", "a contract delegates its own coins, value sent", true, "caller", 5, 1000},
+		{"", "signer delegates directly", false, "origin", 0, 1000, false},
+		{"", "signer delegates through a contract, no value sent", true, "origin", 0, 1000, false},
+		{"F5-Delegate", "signer sends 1 to a contract that delegates the signer's coins under a grant", true, "origin", 1, 1000, false},
+		{"F5-Delegate", "as above, larger amounts", true, "origin", 12345, 777777, false},
+		{"", "a contract delegates its own coins, no value sent", true, "caller", 0, 1000, false},
+		{"", "a contract delegates its own coins, value sent", true, "caller", 5, 1000, false},
+		{"F6-Delegate", "a contract delegates its own coins in a call frame that then reverts", true, "caller", 0, 1000, true},
+		{"F6-Delegate", "a contract delegates the signer's coins under a grant in a call frame that then reverts", true, "origin", 0, 1000, true},
 	}
 	out := spOut{Verdict: "NOT-REPRODUCED", Bound: fmt.Sprintf("%d whole-transaction scenarios of staking.delegate (who calls x whose coins x transaction value)", len(scenarios))}
 	var firstKnown *spOut
 	for _, sc := range scenarios {
+		if req.Property != "" && (req.Property == "C05") != sc.Revert {
+			continue // frame-revert scenarios test C05, the others C02
+		}
 		out.Cases++
 		bad := s.spRun(sc)
 		if bad == "" {
